@@ -60,7 +60,7 @@ def run(prop, tier, seed, replay):
         import props_core as PC
         cases_path = os.path.join(work, "cases.ndjson")
         open(cases_path, "w").close()
-        profs = [(PC.CORE, "fault_q"), (PC.CORE, "redir_q"), (PC.CORE, "optdyn_q"), (PC.CORE, "optskip_q"), (PC.CHAIN, "chain_q"), ("MC_Npm.tla", "npm_q"), ("MC_Fin.tla", "fin_q"), ("MC_Imports.tla", "imports_q")] + ([(PC.CORE, "redir_t"), (PC.CHAIN, "chain_t"), ("MC_Npm.tla", "npm_t"), ("MC_Fin.tla", "fin_t")] if tier == "thorough" else [])
+        profs = [(PC.CORE, "fault_q"), (PC.CORE, "redir_q"), (PC.CORE, "optdyn_q"), (PC.CORE, "optskip_q"), (PC.CORE, "optboth_q"), (PC.CHAIN, "chain_q"), ("MC_Npm.tla", "npm_q"), ("MC_Fin.tla", "fin_q"), ("MC_Imports.tla", "imports_q")] + ([(PC.CORE, "redir_t"), (PC.CHAIN, "chain_t"), ("MC_Npm.tla", "npm_t"), ("MC_Fin.tla", "fin_t")] if tier == "thorough" else [])
         for mod, cfgname in profs:
             r = P.tlc_mc(os.path.join(MC, mod), os.path.join(MC, cfgname + ".cfg"), work, workers=min(8, P.NCPU), timeout=7200)
             if r["errors"]:
